@@ -78,6 +78,7 @@ def instances(tier):
                             pmax=pmax, chunk=k, nchunks=nchunks, budget=b))
         if not symp:
             out.append(dict(id="aux-%s" % cls.__name__, kind="aux", cls=cls.__name__, pmax=min(p, 10 if not quick else 7), budget=b))
+            out.append(dict(id="warm-%s" % cls.__name__, kind="warm", cls=cls.__name__, pmax=min(p, 3 if quick else 5), budget=b))
     out.append(dict(id="simplifying-RadauIIA19", kind="simplifying", cls="RadauIIA19", budget=b))
     bases = ["EulerSolver", "MidpointSolver", "RK4Solver", "SymplecticEulerSolver"] if quick else \
         ["EulerSolver", "MidpointSolver", "RK4Solver", "DOPRI45", "ImplicitMidpoint", "SymplecticEulerSolver"]
@@ -107,6 +108,8 @@ class TreeRhs:
             for w in ch:
                 p = p * y[self.index[w]]
             out[self.index[v]] = p
+        if "s" in kw:           # the equation's parameter: y' = s * F(y)
+            out = [kw["s"] * o for o in out]
         return self.c.array(out)
 
     def jac(self, t, y, **kw):
@@ -159,7 +162,7 @@ def _mk(c, cls, dim):
     return cls((dim,), dtype=dt, rtol=1e-6, atol=1e-6)
 
 
-def _step(c, cls, rhs, dim, t, h, sweeps, absolute=False):
+def _step(c, cls, rhs, dim, t, h, sweeps, absolute=False, warm=False):
     """one real __call__ from y = 0; returns dState (or raises).  absolute=True: the instance's coefficient arrays are replaced by
     their element-wise absolute values (the backward-error scale Phi_abs of the elementary weight, computed by the same real code)"""
     import desolver.utilities.optimizer as opt
@@ -172,7 +175,14 @@ def _step(c, cls, rhs, dim, t, h, sweeps, absolute=False):
     integ.update_timestep = ctrl_stub(c, integ, fixed=1.0)
     y0 = c.array([0] * dim) if c.symbolic else np.zeros(dim)
     with patched(opt, "nonlinear_roots", picard_root_stub(c, sweeps)), patched(it, "broyden_update_jac", lambda B, dx, df, Binv=None: B):
-        new_h, (dT, dY) = integ(rhs, t, y0, {}, h)
+        if warm:
+            # the same integrator object has just taken a step of a DIFFERENT equation (parameter s = 0) that ends exactly where
+            # this step starts; "one step taken from exact data" of the new equation (s = 1) must not inherit anything from it
+            integ(rhs, t - h, y0, dict(s=0), h)
+            t = getattr(integ, "final_time", t)
+            new_h, (dT, dY) = integ(rhs, t, y0, dict(s=1), h)
+        else:
+            new_h, (dT, dY) = integ(rhs, t, y0, {}, h)
     return integ, dY
 
 
@@ -281,6 +291,19 @@ def scenario(c, inst):
                 regions = {"c01.splitting_declared_order": True}
             c.check(name, _within(c, dY[root], h, n, T.gamma(tr), got_abs),
                     info=dict(cls=inst["cls"], tree=T.tree_str(tr), order=n, colour=col, backward_error_scale=got_abs is not None), regions=regions)
+        return
+    if kind == "warm":
+        cls = _cls(inst["cls"])
+        for tr in T.all_trees_up_to(inst["pmax"]):
+            n = T.order(tr)
+            children, sub = T.layout(tr)
+            st, r = run(_step, c, cls, TreeRhs(c, children), len(children), t, h, n + 2, False, True)
+            if st != "ok":
+                c.check("c01.step_runs", False, info=dict(tree=T.tree_str(tr), err=repr(r), warm=True))
+                continue
+            c.case()
+            c.check("c01.tree_condition_after_parameter_change.%s" % inst["cls"], _within(c, r[1][0], h, n, T.gamma(tr)),
+                    info=dict(cls=inst["cls"], tree=T.tree_str(tr), order=n))
         return
     if kind == "aux":
         cls = _cls(inst["cls"])
